@@ -89,3 +89,6 @@ Proof.
   - exfalso. apply Hnin. rewrite E. apply in_map. exact Hb.
   - exfalso. apply Hnin. rewrite <- E. apply in_map. exact Ha.
 Qed.
+
+Theorem filtered_nodup_on_registry T Exc Inc : NoDup (map r_code (filtered_rules registry T Exc Inc)).
+Proof. apply filtered_nodup. exact registry_codes_nodup. Qed.
